@@ -198,9 +198,8 @@ theorem writeStage_spec (c y m l h : Vec α) (hm : ∀ x ∈ m, x ≠ 0) :
                 c0 - min (max (c0 + y0 / m0) l0) h0 := by field_simp; ring
             rw [e2]
 
-/-- Sign structure of the returned multiplier step: `y_out − y = μ·e`, and `e ≥ 0` can only come from
-    the upper bound being exceeded (`c + y/μ ≥ ub`-side), `e ≤ 0` from the lower one — stated as:
-    if `ζ = c + y/μ` lies inside `[l, h]` then `y_out = 0`-multiplier step `y + μ e = 0`. -/
+/-- Complementarity of the returned multiplier: where the shifted constraint value `ζ = c + y/μ` lies
+    inside `[l, h]` (constraint inactive), the updated multiplier `y + μ·e` is zero. -/
 theorem writeStage_inactive (c y m l h : α) (hm : m ≠ 0) (h1 : l ≤ c + y / m) (h2 : c + y / m ≤ h) :
     y + m * (c - min (max (c + y / m) l) h) = 0 := by
   rw [max_eq_left h1, min_eq_left h2]
